@@ -10,7 +10,8 @@ VALIDATION_CASES = {'quick': 40, 'thorough': 120}
 TIME_BUDGET = {'quick': 900, 'thorough': 3300}
 OPTS = {'quick': {'hash_order': 'insertion', 'step_budget': 3000000}, 'thorough': {'hash_order': 'insertion', 'step_budget': 6000000}}
 BOUNDS = {
-    'quick': 'byte tokenizer (pad_to_multiple_of None / 128, grapheme flag, special configs default / bos_eos / dup_extra / '
+    'quick': 'character tokenizer over a caller-supplied vocabulary of 1-3 symbolic, pairwise distinct characters (six UTF-8 width vectors) built with new_vocab_tokenizer; '
+             'byte tokenizer (pad_to_multiple_of None / 128, grapheme flag, special configs default / bos_eos / dup_extra / '
              'minimal), char tokenizer (same special configs), BPE tokenizer (merge tables of 0-3 entries incl. a chain, '
              'max_vocab_size None / truncating); queried id: a symbolic u32 in [0, vocab_size + 300]; queried tokens: representative '
              'valid-UTF-8 vocabulary entries (first / middle / last regular token, every merge, the first six and the last special token)',
@@ -41,6 +42,10 @@ def shapes(tier):
             for mv in (None, 'trunc'):
                 out.append({'kind': 'bpe', 'special': sp, 'table': tb, 'max_vocab': mv, 'g': False})
     out = [dict(s, tslot=k) for s in out for k in range(12)]
+    # character tokenizer over a caller-supplied vocabulary (VocabTokenizer::new_vocab_tokenizer): vocabulary characters symbolic
+    for vw in ([[1], [2], [2, 1], [3, 2], [4, 1, 2], [2, 2]] if tier == 'quick' else [list(w) for n in (1, 2, 3) for w in __import__('itertools').product((1, 2, 3, 4), repeat=n)]):
+        for sp in (('default', 'bos_eos') if tier == 'quick' else tuple(SPECIALS)):
+            out.append({'kind': 'charv', 'special': sp, 'g': False, 'vwidths': vw})
     out.sort(key=lambda s: -(1 if s.get('pad_to') else 0))
     return out
 
@@ -69,10 +74,13 @@ def ntok_raw(shape):
     return len(SPECIALS[shape['special']][0])   # BPETokenizer::new subtracts special_config.tokens.len() (with duplicates)
 
 
-def expected_vocab(shape):
+def expected_vocab(shape, inputs=None):
     """Vocabulary in id order as lists of bytes."""
     kind = shape['kind']
-    if kind == 'byte':
+    if kind == 'charv':
+        reg = [list(chr(c).encode()) for c in unique(inputs['vocab'])]
+        sp = expected_special_tokens(shape, 'char')
+    elif kind == 'byte':
         reg = [[b] for b in range(256)]
         sp = expected_special_tokens(shape, 'byte')
     elif kind == 'char':
@@ -89,7 +97,7 @@ def expected_vocab(shape):
 
 
 def type_of(shape):
-    return {'byte': BYTE_T, 'char': CHAR_T, 'bpe': BPE_T}[shape['kind']]
+    return {'byte': BYTE_T, 'char': CHAR_T, 'bpe': BPE_T, 'charv': CHAR_T}[shape['kind']]
 
 
 def build(ctx, shape):
@@ -104,7 +112,80 @@ def vec_bytes(ctx, v):
     return [b.v for b in ctx.m.peel(v).items]
 
 
+def run_charv(ctx, shape, opts):
+    """character tokenizer built with new_vocab_tokenizer over symbolic, pairwise distinct vocabulary characters"""
+    from models_core import char_utf8_bytes
+    m = ctx.m
+    T = CHAR_T
+    if ctx.concrete is None:
+        ctx.inputs.update({'token': 0, 'id': 0})
+    vchars = ctx.in_string('vocab', shape['vwidths']).chars()
+    for i in range(len(vchars)):
+        for j in range(i):
+            ctx.assume(m.bnot(m.eq(vchars[i], vchars[j])))
+    conf = Struct('CharTokenizerConfig', [False, m.new_string('<unk>')], ['use_graphemes', 'unk_token'])
+    r = m.call_path('BaseTokenizer::<CharTokenizerConfig, (String, Vocab<char>)>::new_vocab_tokenizer',
+                    [VecObj(list(vchars)), m.new_string('<unk>'), special_config(m, shape['special']), conf])
+    ctx.require(r.variant == 'Ok', 'tokenizer construction over a custom vocabulary succeeds')
+    tok = r.fields[0]
+    nreg = len(vchars)
+    sp = [list(x.encode()) for x in expected_special_tokens(shape, 'char')]
+    regb = [char_utf8_bytes(ctx, c) for c in vchars]
+    n = nreg + len(sp)
+
+    def same(bs, want):
+        """bs: list of u8 Ints, want: list of u8 Ints / ints"""
+        if len(bs) != len(want):
+            return False
+        return m.conj([m.eq(x, y if isinstance(y, Int) else Int(y, 'u8')) for x, y in zip(bs, want)])
+    vs = tcall(m, T, 'vocab_size', tok)
+    ctx.out('vocab_size', vs)
+    ctx.require(m.eq(vs, Int(n, 'usize')), 'vocab_size == number of regular tokens + distinct special tokens')
+    gv = tcall(m, T, 'get_vocab', tok)
+    ctx.require(gv.variant == 'Ok', 'get_vocab succeeds')
+    vocab = [ctx.m.peel(x).items for x in gv.fields[0].items]
+    ctx.out('vocab_len', len(vocab))
+    ctx.require(len(vocab) == n, 'get_vocab has exactly vocab_size entries')
+    if len(vocab) == n:
+        ctx.require(m.conj([same(vocab[i], (regb + sp)[i]) for i in range(n)]), 'get_vocab lists regular tokens then special tokens in id order')
+    qid = ctx.in_int('id', 'u32')
+    if ctx.concrete is None:
+        ctx.assume(z3.ULE(qid.z(), n + 300))
+    r = tcall(m, T, 'id_to_token', tok, qid)
+    ctx.out('id_to_token', r)
+    if r.variant == 'Some':
+        bs = ctx.m.peel(r.fields[0]).items
+        ctx.require(m.disj([m.conj([m.eq(qid, Int(j, 'u32')), same(bs, e)]) for j, e in enumerate(regb + sp)]),
+                    'id_to_token(id) == get_vocab()[id] for id < vocab_size')
+    else:
+        ctx.require(m.int_binop('Ge', qid, Int(n, 'u32')), 'id_to_token(id) is None for id >= vocab_size')
+    pick = shape.get('tslot', 0) if ctx.concrete is None else ctx.concrete.get('token', 0)
+    if ctx.concrete is None:
+        ctx.inputs['token'] = pick
+    for pick in (range(nreg) if ctx.concrete is None else [pick]):
+        c = vchars[pick]
+        sref = StrRef(StrBuf([c], [ctx.char_width(c)]), 0, ctx.char_width(c))
+        r2 = tcall(m, T, 'token_to_id', tok, sref)
+        if ctx.concrete is not None:
+            ctx.out('token_to_id', r2)
+        ctx.require(r2.variant == 'Some' and m.eq(r2.fields[0], Int(pick, 'u32')) is True, 'token_to_id maps every UTF-8 token back to its id')
+        d = tcall(m, T, 'de_tokenize', tok, SliceRef([Int(pick, 'u32')], 0, 1), True)
+        ctx.require(d.variant == 'Ok' and chars_equal(ctx, out_chars(ctx, d.fields[0]), [c]) is not False and
+                    ctx.must(chars_equal(ctx, out_chars(ctx, d.fields[0]), [c])), 'decoding a single regular id yields exactly that token')
+    pad = bcall(m, T, 'pad_token_id', tok)
+    tokens, padname, prefix, suffix = SPECIALS[shape['special']]
+    spn = [bytes(x).decode() for x in sp]
+    ctx.require(m.eq(pad, Int(nreg + spn.index(padname), 'u32')) is True, 'pad id is the id of the pad token, above every regular id')
+    pre = [x.v for x in as_items(ctx, bcall(m, T, 'prefix_token_ids', tok))]
+    suf = [x.v for x in as_items(ctx, bcall(m, T, 'suffix_token_ids', tok))]
+    ctx.require(pre == [nreg + spn.index(x) for x in prefix] and suf == [nreg + spn.index(x) for x in suffix],
+                'prefix / suffix ids are the ids of the configured tokens')
+    ctx.sample = {'kind': 'charv', 'special': shape['special'], 'vocab_widths': shape['vwidths'], 'vocab_size': n}
+
+
 def run(ctx, shape, opts):
+    if shape['kind'] == 'charv':
+        return run_charv(ctx, shape, opts)
     m = ctx.m
     T = type_of(shape)
     if ctx.concrete is None:
@@ -196,10 +277,13 @@ def _is_utf8(bs):
 # ------------------------------------------------------------------ native side
 
 def native_outputs(native, shape, inputs):
-    reg, sp = expected_vocab(shape)
+    reg, sp = expected_vocab(shape, inputs)
     exp = reg + sp
     tokstr = [ord(c) for c in bytes(exp[inputs['token']]).decode()]
-    k, v = native_ok(native.call('vocab_query', shape=_nshape(shape), id=int(inputs['id']), token=tokstr))
+    ns = _nshape(shape)
+    if shape['kind'] == 'charv':
+        ns['vocab'] = list(inputs['vocab'])
+    k, v = native_ok(native.call('vocab_query', shape=ns, id=int(inputs['id']), token=tokstr))
     if k != 'ok':
         return {'panic': v}
     return {'vocab_size': v['vocab_size'], 'vocab_len': len(v['vocab']), 'id_to_token': v['id_to_token'],
@@ -210,6 +294,8 @@ def _nshape(shape):
     d = dict(shape)
     tokens, pad, prefix, suffix = SPECIALS[shape['special']]
     d.update({'tokens': tokens, 'pad': pad, 'prefix': prefix, 'suffix': suffix})
+    if shape['kind'] == 'charv':
+        d['kind'] = 'char'
     if shape['kind'] == 'bpe':
         d['merges'] = [[list(k.encode()), v] for k, v in BPE_TABLES[shape['table']]]
         d['max_vocab_size'] = (256 + ntok_raw(shape) + 1) if shape['max_vocab'] == 'trunc' else None
@@ -217,11 +303,22 @@ def _nshape(shape):
 
 
 def concrete_check(native, inputs, shape):
+    if shape['kind'] == 'charv':
+        if len(set(inputs['vocab'])) != len(inputs['vocab']):
+            return []
+        failed = set()
+        for t in range(len(inputs['vocab'])):      # every vocabulary entry as the queried token
+            failed |= set(_concrete_check(native, dict(inputs, token=t), shape))
+        return sorted(failed)
+    return _concrete_check(native, inputs, shape)
+
+
+def _concrete_check(native, inputs, shape):
     o = native_outputs(native, shape, inputs)
     if 'panic' in o:
         return ['no panic']
     v = o['_full']
-    reg, sp = expected_vocab(shape)
+    reg, sp = expected_vocab(shape, inputs)
     exp = reg + sp
     n = len(exp)
     failed = []
@@ -260,6 +357,13 @@ FIXED_CASES = [({'kind': 'byte', 'special': 'default', 'g': True, 'pad_to': None
 def random_case(rng):
     sh = dict(rng.choice(shapes('quick')))
     sh.pop('tslot', None)
+    if sh['kind'] == 'charv':
+        pool = {1: [0x61, 0x7A, 0x24], 2: [0xE4, 0xFF, 0x80, 0x3B1], 3: [0x4E2D, 0x20AC, 0x800], 4: [0x1F600, 0x10000]}
+        voc = []
+        for w in sh['vwidths']:
+            voc.append(rng.choice([c for c in pool[w] if c not in voc]))
+        n = len(voc) + len(expected_special_tokens(sh, 'char'))
+        return (sh, {'vocab': voc, 'id': rng.choice([0, 1, len(voc), n - 1, n, n + 5]), 'token': rng.randrange(len(voc))})
     reg, sp = expected_vocab(sh)
     exp = reg + sp
     utf8 = [i for i, t in enumerate(exp) if _is_utf8(t)]
